@@ -235,12 +235,29 @@ def writers_always_emit(ctx, F, rule="F3-writer-emits"):
     S = sym.Sym(prog, inline_depth=0)
     emit_rx = re.compile(r"CssBuf>::(add_str|add_one|add_char|start_block|end_block|do_indent\w*|pop_nl)$|::write(_to|_fmt|_str|_char)?$|>::fmt$")
     n = 0
+    # crate-local helpers that receive the buffer and emit on every success path count as emitting (a writer
+    # split into `write_prelude` + `write_body` is the same writer); computed as a fixpoint
+    takes_buf = {d: bb for d, bb in prog.bodies.items() if any("CssBuf" in str(l.get("ty", "")) for l in bb.raw["locals"][1:bb.raw["argc"] + 1])}
+    always = set()
+
+    def emits_of(bb):
+        return {bi for bi, t in bb.calls() if emit_rx.search(mir.callee_name(t) or "") or emit_rx.search(mir.callee_orig(t) or "") or (mir.callee_name(t) in always)}
+    for _ in range(4):
+        grew = False
+        for d, bb in takes_buf.items():
+            if d in always or re.search(r"^<css::[^>]*>::write$", d):
+                continue
+            if not cfgutil.paths_to_return_avoiding(bb, 0, emits_of(bb) | set(cfgutil.error_exit_blocks(bb))):
+                always.add(d)
+                grew = True
+        if not grew:
+            break
     for dname, b in sorted(prog.bodies.items()):
         if not re.search(r"^<css::[^>]*>::write$", dname):
             continue
         n += 1
         err = set(cfgutil.error_exit_blocks(b))
-        emit = {bi for bi, t in b.calls() if emit_rx.search(mir.callee_name(t) or "") or emit_rx.search(mir.callee_orig(t) or "")}
+        emit = emits_of(b)
         p = cfgutil.paths_to_return_avoiding(b, 0, emit | err)
         key = mir.short(dname)
         if not p:
